@@ -362,6 +362,53 @@ func (w *WalkEnv) install() {
 			return Sym{K: keyOf(a[0]) + "." + m + "()", T: retype(cc)}, true
 		}
 	}
+	// a constant table indexed by a kind: partition the trace on the table's distinct values
+	in.TableHook = func(in *Interp, idx AVal, valueOf func(k int64) (AVal, bool), zero AVal) (AVal, bool) {
+		t, ok := idx.(Tok)
+		if !ok || t.Dom != "kindof" {
+			return nil, false
+		}
+		cur := w.get(t.Name)
+		type class struct {
+			v    AVal
+			mask uint32
+			none bool
+		}
+		var classes []*class
+		byKey := map[string]*class{}
+		for k := 0; k <= int(reflect.UnsafePointer); k++ {
+			if cur&(1<<uint(k)) == 0 {
+				continue
+			}
+			v, found := valueOf(int64(k))
+			key := "∅"
+			if found {
+				key = keyOf(v)
+			}
+			c := byKey[key]
+			if c == nil {
+				c = &class{v: v, none: !found}
+				byKey[key] = c
+				classes = append(classes, c)
+			}
+			c.mask |= 1 << uint(k)
+		}
+		if len(classes) == 0 {
+			return nil, false
+		}
+		for i, c := range classes {
+			if i == len(classes)-1 || w.split(t.Name, c.mask, fmt.Sprintf("table:0x%x", c.mask)) {
+				if c.none {
+					if zero == nil {
+						return nil, false // index outside the array: left to the ordinary (panicking) path
+					}
+					return zero, true
+				}
+				return c.v, true
+			}
+		}
+		return nil, false
+	}
 	// kind comparisons and length-vs-zero comparisons
 	in.BinHook = func(in *Interp, op token.Token, x, y AVal) (AVal, bool) {
 		if op != token.EQL && op != token.NEQ && op != token.LSS && op != token.LEQ && op != token.GTR && op != token.GEQ {
